@@ -25,7 +25,7 @@ META = dict(
             "what they may do; overlapping_fun / prevalence variants of category_shuffle (thorough only)",
     stubs=["np.random.* = fresh symbolic draws under their contract, logged", "int() = truncation toward zero", "redraw loops cut by the draw budget (counted)"],
     assumptions=["reference units labelled, longer than SEGMENT_PRECISION, pairwise distinct starts, coordinates in [-64, 64]", "0 <= magnitude <= 1"],
-    cfg_budget_s=dict(quick=240, thorough=1700),
+    cfg_budget_s=dict(quick=240, thorough=900),
 )
 
 FIXED_REFS = [[(0, 4), (10, 15)], [(0, 10), (2, 5)], [(1, 2), (2, 3)]]
@@ -45,6 +45,10 @@ def configs(tier):
     out.append(dict(key="named-annotators,symbolic-ref", flags=[], ref=("sym", 2), anns=["zoe", "abe"], cost=20))
     out.append(dict(key="all-flags,magnitude=0,symbolic-ref", flags=list(FLAGS), ref=("sym", 2), anns=2, m0=True, include_ref=True, budget=60, cost=100))
     out.append(dict(key="extra-categories,symbolic-ref", flags=["cat_shuffle"], ref=("sym", 2), anns=1, extra_cats=["zz"], cost=100))
+    # one tool object used several times: a first shuffle at magnitude m, then `tool.magnitude = 0` and a second shuffle
+    for flag in ("cat_shuffle", "false_neg", "split") + (("shift",) if tier == "thorough" else ()):
+        out.append(dict(key=f"tool-reused,{flag},then-magnitude-0", flags=[flag], ref=("fixed", 0) if flag == "shift" else ("sym", 2), anns=1, reuse=True,
+                        budget=30, cost=600))
     if tier == "thorough":
         for flag in FLAGS:
             if flag != "shift":
@@ -104,7 +108,7 @@ def harness(cfg, ns):
                     draws.append(["random", common.frs(mval(mdl, rec[1]))])
                 elif rec[0] == "choice":
                     draws.append(["choice", rec[3]])
-            return dict(kind="cst", flags=flags, anns=anns, include_ref=bool(cfg.get("include_ref")), extra_cats=cfg.get("extra_cats"),
+            return dict(kind="cst", reuse=bool(cfg.get("reuse")), flags=flags, anns=anns, include_ref=bool(cfg.get("include_ref")), extra_cats=cfg.get("extra_cats"),
                         magnitude=common.frs(mval(mdl, m)), draws=draws,
                         ref=[[common.frs(mval(mdl, s)), common.frs(mval(mdl, e)), lab] for s, e, lab in runits])
         ctx.notes["realize"] = rz
@@ -124,8 +128,25 @@ def harness(cfg, ns):
         co.Continuum.add = spy_add
         try:
             corpus = tool.corpus_shuffle(anns, include_ref=bool(cfg.get("include_ref")), **{f: True for f in flags})
+            if cfg.get("reuse"):
+                first_corpus = corpus
+                first_snapshot = [(a, u.segment.start, u.segment.end, u.annotation) for a, u in first_corpus]
+                tool.magnitude = 0.0
+                corpus = tool.corpus_shuffle(anns, shift=True, false_pos=True, false_neg=True, split=True, cat_shuffle=True)
         finally:
             co.Continuum.add = orig_add
+        if cfg.get("reuse"):
+            o2 = [Obl("tool re-used at magnitude 0: annotators", list(corpus.annotators) == sorted(names), rz),
+                  Obl("tool re-used: the first corpus is not touched by the second shuffle",
+                      [(a, u.segment.start, u.segment.end, u.annotation) for a, u in first_corpus] == first_snapshot, rz)]
+            for a in names:
+                if a in corpus._annotations:
+                    us = [(u.segment.start, u.segment.end, u.annotation) for u in corpus._annotations[a]]
+                    o2.append(Obl("tool re-used at magnitude 0: annotator==reference",
+                                  SymBool(z3.And(z3.BoolVal(len(us) == len(runits)),
+                                                 *[z3.Or(*[z3.And(lift(x[0]) == lift(y[0]), lift(x[1]) == lift(y[1]), z3.BoolVal(x[2] == y[2])) for y in us])
+                                                   for x in runits])) if us else False, rz))
+            return o2
         # known-finding regions (see known_findings.json)
         pairs = []
         for i1, x in enumerate(ADDS):
@@ -236,6 +257,10 @@ def replay(case):
                 mock.patch("numpy.random.randint", randint), mock.patch("numpy.random.choice", choice):
             tool = CorpusShufflingTool(m, ref, categories=case.get("extra_cats"))
             corpus = tool.corpus_shuffle(case["anns"], include_ref=case["include_ref"], **{f: True for f in flags})
+            if case.get("reuse"):
+                tool.magnitude = 0.0
+                corpus = tool.corpus_shuffle(case["anns"], shift=True, false_pos=True, false_neg=True, split=True, cat_shuffle=True)
+                flags, m = [], 0.0
     except RuntimeError as ex:
         return dict(reproduced=None, detail=str(ex))
     except Exception as ex:     # noqa: BLE001
